@@ -394,6 +394,8 @@ func familySched(t *testing.T) {
 		}
 	}
 	stress(rng)
+	coldBurst()
+	refreshBurst()
 	T.finish()
 }
 
@@ -635,4 +637,146 @@ loop:
 
 func simpleLoginAs(inst http.Handler, p *provider, j jar, email string) bool {
 	return simpleLogin(inst, p, j, email, time.Hour)
+}
+
+// coldBurst (C04, C05): a burst of requests of established sessions reaches an instance whose key cache is empty (a freshly started
+// instance; any instance after the hourly clean-up has emptied its cache) while the key-set answer is in flight. Each of them is
+// served as it would be alone: forwarded, no cookie touched.
+func coldBurst() {
+	p := newProvider(keys()["p256a"])
+	instA := newInstance(p, &down{}, nil)
+	n := 8
+	jars := make([]jar, n)
+	for u := range jars {
+		jars[u] = jar{}
+		if !simpleLoginAs(instA, p, jars[u], fmt.Sprintf("user%d@example.com", u)) {
+			return
+		}
+	}
+	rounds := T.size(3, 12)
+	for round := 0; round < rounds; round++ {
+		d := &down{}
+		instB := newInstance(p, d, nil)
+		p.mu.Lock()
+		p.jwksDelay = 20 * time.Millisecond
+		p.mu.Unlock()
+		codes := make([]int, n)
+		setc := make([]int, n)
+		var wg sync.WaitGroup
+		for u := 0; u < n; u++ {
+			wg.Add(1)
+			go func(u int) {
+				defer wg.Done()
+				defer func() {
+					if pv := recover(); pv != nil {
+						codes[u] = -1
+					}
+				}()
+				req := httptest.NewRequest("GET", fmt.Sprintf("http://app.test/u%d", u), nil)
+				jars[u].addTo(req)
+				rec := httptest.NewRecorder()
+				instB.ServeHTTP(rec, req)
+				codes[u], setc[u] = rec.Code, len(rec.Header()["Set-Cookie"])
+			}(u)
+		}
+		wg.Wait()
+		p.mu.Lock()
+		p.jwksDelay = 0
+		p.mu.Unlock()
+		lost := 0
+		for u := range codes {
+			if codes[u] != 200 {
+				lost++
+			}
+		}
+		T.statN("sched.cold-burst.requests", n)
+		if lost > 0 {
+			obs := M{"statuses": codes, "set_cookie_lines": setc, "not_forwarded": lost, "of": n}
+			rp := M{"family": "sched", "coldBurst": true, "what": "8 browsers log in on one instance; a second instance (same session key, nothing cached) is sent one request of each at the same moment while the key set takes 20 ms to arrive"}
+			T.oracle("C04", "an established session is not honoured when several requests reach an instance with an empty key cache together", obs, rp)
+			T.oracle("C05", "a request is answered differently because others are in flight (empty key cache, key set being fetched)", obs, rp)
+			return
+		}
+	}
+}
+
+// refreshBurst (C05, C08): many browsers whose ID tokens are inside the grace period send a request at the same moment, and the
+// provider takes a while to answer each refresh grant: every request is answered (forwarded with the identity of its own browser);
+// the number of grants in flight at once must not matter.
+func refreshBurst() {
+	p := newProvider(keys()["p256a"])
+	d := &down{}
+	inst := newInstance(p, d, nil)
+	users := T.size(24, 64)
+	jars := make([]jar, users)
+	rtUser := map[string]int{}
+	p.onRefresh = func(form url.Values) tokenAnswer {
+		u, ok := rtUser[form.Get("refresh_token")]
+		if !ok {
+			return tokenAnswer{kind: "invalid_grant", desc: "unknown refresh token"}
+		}
+		time.Sleep(40 * time.Millisecond)
+		cl := stdClaims(time.Now(), time.Hour)
+		cl["email"] = fmt.Sprintf("user%d@example.com", u)
+		return tokenAnswer{kind: "ok", idToken: stdToken(p.keys[0], cl), refresh: form.Get("refresh_token")}
+	}
+	for u := range jars {
+		jars[u] = jar{}
+		rt := fmt.Sprintf("refresh-token-of-user-%d", u)
+		rtUser[rt] = u
+		if !loginWith(inst, p, jars[u], fmt.Sprintf("user%d@example.com", u), 20*time.Second, rt) {
+			return
+		}
+	}
+	var wrongIdentity atomic.Int64
+	d.check = func(r *http.Request) {
+		var u int
+		if _, err := fmt.Sscanf(r.URL.Path, "/u%d", &u); err == nil && r.Header.Get("X-Forwarded-User") != fmt.Sprintf("user%d@example.com", u) {
+			wrongIdentity.Add(1)
+		}
+	}
+	codes := make([]atomic.Int64, users)
+	var answered atomic.Int64
+	start := make(chan struct{})
+	for u := 0; u < users; u++ {
+		go func(u int) {
+			defer func() {
+				if pv := recover(); pv != nil {
+					codes[u].Store(-1)
+					answered.Add(1)
+				}
+			}()
+			req := httptest.NewRequest("GET", fmt.Sprintf("http://app.test/u%d", u), nil)
+			jars[u].addTo(req)
+			rec := httptest.NewRecorder()
+			<-start
+			inst.ServeHTTP(rec, req)
+			codes[u].Store(int64(rec.Code))
+			answered.Add(1)
+		}(u)
+	}
+	close(start)
+	deadline := time.Now().Add(10 * time.Second)
+	for answered.Load() < int64(users) && time.Now().Before(deadline) {
+		time.Sleep(10 * time.Millisecond)
+	}
+	T.statN("sched.refresh-burst.requests", users)
+	rp := M{"family": "sched", "refreshBurst": true, "what": fmt.Sprintf("%d browsers with ID tokens inside the grace period and a refresh token each send one request at the same moment; the provider answers each refresh grant after 40 ms", users)}
+	if n := answered.Load(); n < int64(users) {
+		T.oracle("C05", "requests hang under concurrent load: refreshes in flight at the same time are never answered (no progress for 10 s)", M{"answered": n, "of": users}, rp)
+		return
+	}
+	notOK := 0
+	for u := range codes {
+		if codes[u].Load() != 200 {
+			notOK++
+		}
+	}
+	if notOK > 0 {
+		T.oracle("C05", "a request is answered differently because other refreshes are in flight", M{"not_forwarded": notOK, "of": users}, rp)
+		T.oracle("C08", "a refresh that the provider grants does not lead to the request being forwarded when other refreshes are in flight", M{"not_forwarded": notOK, "of": users}, rp)
+	}
+	if n := wrongIdentity.Load(); n > 0 {
+		T.oracle("C05", "concurrent refreshes: a forwarded request carries another browser's identity", M{"count": n}, rp)
+	}
 }
